@@ -88,6 +88,9 @@ def emit_read(a, var, rng):
                 if off:
                     if var.get("shift_style", "shr") == "shr":
                         a.emit(8 * off, "SHR")
+                    elif var.get("shift_style") == "shr-computed":
+                        # the shift amount spelled as a constant expression (byte offset * 8), as unoptimised helpers do
+                        a.emit(off, 8, "MUL", "SHR")
                     else:
                         a.emit(("push", 1 << (8 * off), None), "SWAP1", "DIV")
                 a.emit(("push", (1 << (8 * width)) - 1, width), "AND", 0, "MSTORE")
@@ -97,7 +100,7 @@ def _src_shift(a, var, width):
     """The value written into a field may itself be a part of a wider word: field = uintN(x >> j)."""
     j = var.get("src_shift", 0)
     if j and j + 8 * width <= 256:
-        if var.get("shift_style", "shr") == "shr":
+        if var.get("shift_style", "shr") in ("shr", "shr-computed"):
             a.emit(j, "SHR")
         else:
             a.emit(("push", 1 << j, None), "SWAP1", "DIV")
@@ -264,7 +267,7 @@ def random_ground_truth(rng, nvars=None, slot_pool=None, kinds=None):
             var["value"] = rng.choice(["word", "addr"])
         elif kind == "packed":
             var["fields"] = random_fields(rng)
-            var["shift_style"] = rng.choice(["shr", "div"])
+            var["shift_style"] = rng.choice(["shr", "div", "shr-computed"])
             var["write_style"] = rng.choice(["per-field", "per-field", "single-left", "single-right"])
             if rng.random() < 0.3:
                 var["src_shift"] = rng.choice([8, 64, 96, 128, 160])
